@@ -11,6 +11,7 @@ struct Family {
   std::vector<ReqSpec> reqs;     // request table (indices are what EV_REQ / cbarg refer to)
   std::vector<int>     req_menu; // which of them the application may issue at top level
   std::vector<int>     replies, forges, advances, faults, setservers;
+  std::vector<int>     reinit_variants = { 0 }; // 0 plain, 1 the configuration file is unreadable during it, 2 the file's content has changed
   std::vector<int>     fault_skips = { 0 }; // an armed fault hits the (skip+1)-th call of its site
   unsigned             evmask = 0;
   unsigned             policy_mask = 0; // bit per ARES_VERIF_RAND_* purpose whose draws are enumerated
